@@ -127,8 +127,34 @@ def eval_hy(case):
                              expected=zl, tol=0.05, signature=sig)], "outcome": "hy-disagrees"}
 
 
+def eval_history(case):
+    """Call sequences in ONE process that share some arguments and differ in others (same reservoir
+    temperature with two pseudocritical points, same pseudocritical point at two temperatures ...):
+    every value must still be a root for its own reduced state - a result memoised under too coarse a
+    key is served to the wrong caller only after such a history."""
+    from bluebonnet.fluids import gas  # noqa: PLC0415
+
+    viol = []
+    outcomes = []
+    for (T, p, tpc, ppc) in case["calls"]:
+        z = float(gas.z_factor_DAK(T, p, tpc, ppc))
+        tr, pr = (T + 459.67) / (tpc + 459.67), p / ppc
+        cls, r_pub, r_k1 = classify_point(z, tr, pr)
+        outcomes.append(cls)
+        if cls == "K1":
+            viol.append(V("z/root", f"(history) Z at T_r={tr:.4f}, p_r={pr:.4f} = {z:.9g} is the root of the EOS with "
+                          "first coefficient A1*A2/Tr, not of the published EOS", case=case, observed=z,
+                          signature=K1_SIG))
+        elif cls != "ok":
+            viol.append(V("z/root-after-history", f"after the call history {case['calls']} the value "
+                          f"Z(T={T}, p={p}, T_pc={tpc}, p_pc={ppc}) = {z:.9g} is not a root for its own reduced "
+                          f"state (T_r={tr:.4f}, p_r={pr:.4f}): residuals {r_pub:.3g} / {r_k1:.3g}", case=case,
+                          observed=z))
+    return {"violations": viol, "outcome": "history", "evals": len(case["calls"])}
+
+
 def evaluate(case):
-    return {"point": eval_point, "sweep": eval_sweep, "hy": eval_hy}[case["kind"]](case)
+    return {"point": eval_point, "sweep": eval_sweep, "hy": eval_hy, "history": eval_history}[case["kind"]](case)
 
 
 def cases(tier, seed):
@@ -158,10 +184,18 @@ def cases(tier, seed):
             if p / ppc <= 30:
                 out.append({"kind": "point", "tr": float(tr), "pr": float(p / ppc), "pc": 0,
                             "table": [g, T, float(p)]})
+    # histories: all ordered pairs / one long interleaving of calls sharing T, p, T_pc or p_pc
+    base = [(T, p, tpc, ppc) for T in (150.0, 300.0) for p in (800.0, 4000.0)
+            for (tpc, ppc) in ((-102.2, 648.5), (-55.0, 620.0), (-102.2, 700.0))]
+    for a, b in itertools.permutations(base, 2):
+        if sum(x == y for x, y in zip(a, b)) >= 2:
+            out.append({"kind": "history", "calls": [list(a), list(b)]})
+    out.append({"kind": "history", "calls": [list(c) for c in base + base[::-1]]})
     for tr in (1.05, 1.5, 3.0):
         out.append({"kind": "sweep", "tr": tr, "lo": 0.05, "hi": 30.0, "n": 600 if thorough else 300, "pc": 0})
     hts = np.arange(1.2, 3.0001, 0.01 if thorough else 0.05)
-    hps = np.arange(0.1 if thorough else 0.5, 24.0001, 0.1 if thorough else 0.5)
+    hps = np.concatenate([[1e-3, 5e-3, 0.01, 0.02, 0.05, 0.1, 0.2, 0.35],  # the low end of the common range (0, 24]
+                          np.arange(0.1 if thorough else 0.5, 24.0001, 0.1 if thorough else 0.5)])
     out += [{"kind": "hy", "tr": float(round(t, 4)), "pr": float(round(p, 4))} for t, p in itertools.product(hts, hps)]
     return out
 
@@ -176,7 +210,7 @@ def run(ctx):
         "rule": "point lattice T_r x p_r x pseudocritical point + table-range rows + isotherm sweeps + "
                 "Hall-Yarbrough lattice, all enumerated; non-trivial = distinct returned Z with |Z-1| > 1e-3",
         "samples": samples_of(cs),
-        "by_kind": {k: sum(1 for c in cs if c["kind"] == k) for k in ("point", "sweep", "hy")},
+        "by_kind": {k: sum(1 for c in cs if c["kind"] == k) for k in ("point", "sweep", "hy", "history")},
     }
     return ctx.finish("exploration", cov, [
         "published DAK constants as transcribed in refmodels/dak.py; root tolerance 1e-6",
